@@ -1,6 +1,6 @@
 (* Correspondence cases of the broker harness (C02, C07, C08, C18). *)
 From Emitter Require Import Lib.Base Model.MsgCodec Model.Murmur Model.Channel Model.Cipher Model.Key
-     Model.Trie Model.Store Model.Broker Spec.PubSub.
+     Model.Trie Model.Store Model.Broker Spec.PubSub Spec.BrokerSpec.
 
 Inductive stepc := Step (client : N) (o : op) (obs : list (list pkt)).
 
@@ -48,7 +48,7 @@ Definition sort_who (p : pkt) : pkt :=
   | _ => p
   end.
 
-Definition out_of (b : broker) (i : N) : list pkt :=
+Definition out_of {I} (b : @broker I) (i : N) : list pkt :=
   map sort_who (map snd (filter (fun x => fst x =? i) (b_out b))).
 
 Definition clients (n : N) : list N := map N.of_nat (seq 0 (N.to_nat n)).
@@ -56,7 +56,34 @@ Definition clients (n : N) : list N := map N.of_nat (seq 0 (N.to_nat n)).
 Definition pair_eqb (a b : list N * N) : bool := list_eqb N.eqb (fst a) (fst b) && (snd a =? snd b).
 Definition subset {A} (eq : A -> A -> bool) (a b : list A) : bool := forallb (fun x => existsb (eq x) b) a.
 
-Record st := St { br : broker; ok : bool }.
+(* packets of a that have no partner in b *)
+Fixpoint mset_diff (a b : list pkt) : list pkt :=
+  match a with
+  | [] => []
+  | x :: r => match remove_first x b with Some b' => mset_diff r b' | None => x :: mset_diff r b end
+  end.
+
+(* which property a disagreement between the specification and the observed packets touches *)
+Definition classify (o : op) (p : pkt) : N :=
+  match p, o with
+  | PPresence _ _ _ _, OEnd _ => 8 |+| 16
+  | PPresence _ _ _ _, _ => 16
+  | PPresenceStatus _ _ _ _, _ => 16
+  | _, OEnd _ => 8
+  | PMsg _ _, OSub _ _ _ => 4
+  | _, _ => 2
+  end.
+
+(* in a SUBSCRIBE step the replayed messages precede the SUBACK *)
+Fixpoint replay_before_ack (l : list pkt) (seen_ack : bool) : bool :=
+  match l with
+  | [] => true
+  | PSuback _ _ :: r => replay_before_ack r true
+  | PMsg _ _ :: r => negb seen_ack && replay_before_ack r seen_ack
+  | _ :: r => replay_before_ack r seen_ack
+  end.
+
+Record st := St { br : @broker trie; sp : @broker held; ok : bool; code : N }.
 
 Definition check (c : case) : N :=
   match c with
@@ -65,13 +92,25 @@ Definition check (c : case) : N :=
     let s := fold_left (fun s x =>
                           match x with
                           | Step ci o obs =>
-                            let b := step e (br s) ci o in
-                            St b (ok s && forallb (fun i => mset_eqb (out_of b i) (nth (N.to_nat i) obs [])) (clients n))
-                          end) steps (St (broker0 n) true) in
+                            let b := step trie_ix e (br s) ci o in
+                            let sb := step held_ix e (sp s) ci o in
+                            let oc := fold_left (fun acc i =>
+                                         let ob := nth (N.to_nat i) obs [] in
+                                         let d := mset_diff (out_of sb i) ob ++ mset_diff ob (out_of sb i) in
+                                         fold_left (fun a p => a |+| classify o p) d acc
+                                         |+| (match o with OSub _ _ _ => if i =? ci then bit (replay_before_ack ob false) 4 else 0 | _ => 0 end))
+                                       (clients n) 0 in
+                            St b sb (ok s && forallb (fun i => mset_eqb (out_of b i) (nth (N.to_nat i) obs [])) (clients n))
+                               (code s |+| oc)
+                          end) steps (St (broker0 trie_ix n) (broker0 held_ix n) true 0) in
     let mine := filter (fun p => negb ((snd p =? watcher) || (snd p =? helper))) dump in
     let mp := pairs (t_root (b_trie (br s))) in
     bit (ok s) 1
     |+| bit (subset pair_eqb mine mp && subset pair_eqb mp mine) 1
+    |+| code s
+    (* what the index holds at the end is exactly what the open connections still hold: nothing is
+       left behind by connections that ended, nothing of the others was touched *)
+    |+| bit (subset pair_eqb mine (b_trie (sp s)) && subset pair_eqb (b_trie (sp s)) mine) 8
   end.
 
 (* debugging aid: the first step and client where model and implementation differ *)
@@ -79,14 +118,14 @@ Definition first_diff (c : case) : option (N * N * list pkt * list pkt) :=
   match c with
   | CBroker mqtt contract sign now keys n steps dump watcher helper =>
     let e := Env mqtt contract sign now keys 2592000 in
-    (fix go (b : broker) (l : list stepc) (k : N) :=
+    (fix go (b : @broker trie) (l : list stepc) (k : N) :=
        match l with
        | [] => None
        | Step ci o obs :: r =>
-         let b' := step e b ci o in
+         let b' := step trie_ix e b ci o in
          match find (fun i => negb (mset_eqb (out_of b' i) (nth (N.to_nat i) obs []))) (clients n) with
          | Some i => Some (k, i, out_of b' i, nth (N.to_nat i) obs [])
          | None => go b' r (k + 1)
          end
-       end) (broker0 n) steps 0
+       end) (broker0 trie_ix n) steps 0
   end.
